@@ -42,7 +42,7 @@ def gen_history(rnd, sp):
             choices += ["reaction"] * 4
         if added_rl < nrl and added_rx >= min(nrx, 1):
             choices += ["rule"] * 2
-        choices += ["set_param", "set_species", "init", "iface", "sim", "sim", "seed", "pickle", "restore", "refused_edit"]
+        choices += ["set_param", "set_species", "init", "iface", "sim", "sim", "seed", "pickle", "restore", "refused_edit", "failed_sim"]
         if ifaces:
             choices += ["sim_iface"] * 2
         op = rnd.choice(choices)
@@ -91,6 +91,10 @@ def gen_history(rnd, sp):
             ops.append(["seed", rnd.getrandbits(30) + 1])
         elif op == "pickle":
             ops.append(["pickle", rnd.choice([2, 4, 5, "deepcopy"])])
+        elif op == "failed_sim":
+            # a simulation call that raises (integer / empty / 2-d time grid, a list instead of an array); the exception is swallowed
+            ops.append(["failed_sim", rnd.choice(["int_grid", "int_grid_delay", "empty_grid", "two_d_grid", "list_grid"])])
+            inited = True
         elif op == "refused_edit":
             # an edit bioscrape refuses (undeclared species inside a rate law); the exception is swallowed and work goes on
             ops.append(["refused_edit", rnd.choice(["hill_s1", "prophill_d", "ma_species", "hill_delay"])])
@@ -211,6 +215,14 @@ def run_case(case):
             elif k == "rule":
                 t = specmod.rule_tuple(sp["rules"][op[1]])
                 H.create_rule(t[0], dict(t[1]), rule_frequency=t[2])
+            elif k == "failed_sim":
+                if not lineage:
+                    bad_tp = {"int_grid": np.arange(5), "int_grid_delay": np.arange(5), "empty_grid": np.array([]), "two_d_grid": np.zeros((2, 3)),
+                              "list_grid": [0.0, 0.5, 1.0]}[op[1]]
+                    try:
+                        py_simulate_model(bad_tp, Model=H, stochastic=True, delay=(True if op[1] == "int_grid_delay" else None))
+                    except Exception:
+                        C["failed_simulation_calls"] += 1
             elif k == "refused_edit":
                 try:
                     specmod._poison(H, {"species": list(case["shuffled_species"]), "poison": [[0, op[1]]]}, 0)
